@@ -206,10 +206,19 @@ func VerifH_PoolHistories() {
 				vrt.Assert(!eligible, "Take finds a cached, open, unblocked connection of the key if there is one")
 				vrt.Cover("pool-take-miss")
 			}
-			// closed ones that Take skipped were unlinked
+			// closed (dead) connections that Take came across before its result were unlinked
+			// and dropped; those behind the returned entry stay cached until a later Take/Put
 			for x := 0; x < nConns; x++ {
 				if g.status[x] == gCached && g.key[x] == k && conns[x].isClosed && closed(conns[x].unblocked) {
-					g.status[x] = gOutside
+					still := false
+					for ent := p.order.head; ent != nil; ent = ent.global.next {
+						if ent.val == conns[x] {
+							still = true
+						}
+					}
+					if !still {
+						g.status[x] = gOutside
+					}
 				}
 			}
 		case 2: // Close the pool
@@ -323,4 +332,155 @@ func VerifH_PoolExpiry() {
 		vrt.Assert(c.closes <= 1, "every connection is closed at most once (by the expiry callback or by the pool, never both)")
 	}
 	vrt.Cover("expiry-end")
+}
+
+// ---- poolConn wrappers ----
+
+type vhStream struct {
+	ctx *vhStreamCtx
+}
+
+type vhStreamCtx struct {
+	context.Context
+	done chan struct{}
+}
+
+func (c *vhStreamCtx) Done() <-chan struct{} { return c.done }
+func (c *vhStreamCtx) Err() error            { return nil }
+
+func (s *vhStream) Context() context.Context                              { return s.ctx }
+func (s *vhStream) MsgSend(msg drpc.Message, enc drpc.Encoding) error     { return nil }
+func (s *vhStream) MsgRecv(msg drpc.Message, enc drpc.Encoding) error     { return nil }
+func (s *vhStream) CloseSend() error                                      { return nil }
+func (s *vhStream) Close() error                                          { return nil }
+
+// vhUseConn is a pool connection that records concurrent use.
+type vhUseConn struct {
+	fakeConn
+	inUse    int
+	maxInUse int
+	invokes  int
+	gate     *bool
+	streams  []*vhStream
+}
+
+func (c *vhUseConn) Invoke(ctx context.Context, rpc string, enc drpc.Encoding, in, out drpc.Message) error {
+	c.inUse++
+	if c.inUse > c.maxInUse {
+		c.maxInUse = c.inUse
+	}
+	c.invokes++
+	if c.gate != nil {
+		vrt.WaitFor(c.gate)
+	}
+	c.inUse--
+	return nil
+}
+
+func (c *vhUseConn) NewStream(ctx context.Context, rpc string, enc drpc.Encoding) (drpc.Stream, error) {
+	c.inUse++
+	if c.inUse > c.maxInUse {
+		c.maxInUse = c.inUse
+	}
+	s := &vhStream{ctx: &vhStreamCtx{Context: ctx, done: make(chan struct{})}}
+	c.streams = append(c.streams, s)
+	return s, nil
+}
+
+type vhBgCtx struct{}
+
+func (vhBgCtx) Deadline() (time.Time, bool)       { return time.Time{}, false }
+func (vhBgCtx) Done() <-chan struct{}             { return nil }
+func (vhBgCtx) Err() error                        { return nil }
+func (vhBgCtx) Value(key interface{}) interface{} { return nil }
+
+// VerifH_PoolConnWrappers: two callers use pooled connection handles of the same key
+// concurrently (one unary call parked inside its connection, one more unary call or a
+// stream), then sequentially again. A dialled connection is never used by two callers at
+// once, connections are dialled only when none is cached, returned to the pool after use
+// (after the stream's context is done for streams) and the wrapper's Done fires only
+// after the connection is back in the pool.
+func VerifH_PoolConnWrappers() {
+	p := New[uint8, *vhUseConn](Options{Capacity: 2, KeyCapacity: 2})
+	gate := false
+	dials := 0
+	var conns []*vhUseConn
+	dial := func(ctx context.Context, key uint8) (*vhUseConn, error) {
+		dials++
+		c := &vhUseConn{gate: &gate}
+		c.closedCh = make(chan struct{})
+		u := make(chan struct{})
+		close(u)
+		c.unblocked = u
+		c.id = dials
+		conns = append(conns, c)
+		return c, nil
+	}
+	h1 := p.Get(vhBgCtx{}, 7, dial)
+	h2 := p.Get(vhBgCtx{}, 7, dial)
+	second := vrt.Choice("second", 2)
+	d1, d2 := false, false
+	var st drpc.Stream
+	go func() { _ = h1.Invoke(vhBgCtx{}, "a", nil, nil, nil); d1 = true }()
+	go func() {
+		if second == 0 {
+			_ = h2.Invoke(vhBgCtx{}, "b", nil, nil, nil)
+		} else {
+			st, _ = h2.NewStream(vhBgCtx{}, "s", nil)
+		}
+		d2 = true
+	}()
+	vrt.Quiesce()
+	vrt.Assert(dials == 2, "two concurrent callers get two connections (none is shared while in use)")
+	gate = true
+	vrt.Quiesce()
+	vrt.Assert(d1 && d2, "calls return")
+	for _, c := range conns {
+		vrt.Assert(c.maxInUse <= 1, "a pooled connection is never handed to two callers at once")
+	}
+	if second == 1 && st != nil && len(conns) > 0 {
+		// the stream's connection is not in the pool while the stream is alive
+		var sc *vhUseConn
+		for _, c := range conns {
+			if len(c.streams) > 0 {
+				sc = c
+			}
+		}
+		cached := 0
+		for ent := p.order.head; ent != nil; ent = ent.global.next {
+			cached++
+			vrt.Assert(ent.val != sc, "a connection with a live stream is not cached")
+		}
+		wrapDone := false
+		select {
+		case <-st.Context().Done():
+			wrapDone = true
+		default:
+		}
+		vrt.Assert(!wrapDone, "the stream wrapper's context is not done while the stream is alive")
+		close(sc.streams[0].ctx.done) // the stream ends
+		sc.inUse--
+		vrt.Quiesce()
+		back := false
+		for ent := p.order.head; ent != nil; ent = ent.global.next {
+			if ent.val == sc {
+				back = true
+			}
+		}
+		select {
+		case <-st.Context().Done():
+			wrapDone = true
+		default:
+		}
+		vrt.Assert(back && wrapDone, "after the stream ends its connection is back in the pool and only then the wrapper's Done fires")
+		vrt.Cover("poolconn-stream")
+	}
+	// sequential reuse: no new dial
+	before := dials
+	_ = h1.Invoke(vhBgCtx{}, "c", nil, nil, nil)
+	vrt.Assert(dials == before, "a cached connection is reused instead of dialling")
+	vrt.Assert(h1.Close() == nil, "handle closes")
+	vrt.Assert(h1.Invoke(vhBgCtx{}, "d", nil, nil, nil) != nil, "a closed handle refuses calls")
+	vrt.Assert(vrt.Unfinished() == 0, "the pool's stream monitor goroutines have ended")
+	vrt.Cover("poolconn-end")
 }
